@@ -106,6 +106,25 @@ fn main() {
             let seed: u64 = arg(&args, "--seed").and_then(|s| s.parse().ok()).or_else(|| std::env::var("VERIF_SEED").ok().and_then(|s| s.parse().ok())).unwrap_or(20260929);
             std::process::exit(check(&id, tier, seed, &args));
         }
+        "dbg-prog" => {
+            // zipsim dbg-prog <case.json with src.Prog> <k> : run the writer program with Fail(Other) at sink call k, print steps
+            let txt = std::fs::read_to_string(args.get(2).expect("case file")).expect("read");
+            let v: Value = serde_json::from_str(&txt).expect("json");
+            let v = if v.get("case").is_some() { v["case"].clone() } else { v };
+            let ops: Vec<ops::Op> = serde_json::from_value(v["src"]["Prog"].clone()).expect("ops");
+            let k: u64 = args.get(3).and_then(|s| s.parse().ok()).unwrap_or(u64::MAX);
+            let pol = if k == u64::MAX { simio::Policy::Pure } else { simio::Policy::At { k, d: simio::Decision::Fail(simio::EK::Other) } };
+            let st = simio::shared_empty();
+            let srcs: Vec<scen::common::Source> = serde_json::from_value(v["sources"].clone()).unwrap_or_default();
+            let (src_stores, _infos, _imgs) = scen::common::sources_to_stores(&srcs);
+            let (out, io, _s) = scen::prog::exec_full(st.clone(), false, &ops, &src_stores, &pol, &simio::Policy::Pure, 0, true);
+            for (o, s) in ops.iter().zip(out.steps.iter()) {
+                println!("{:<14} -> {:?} accepted={}", o.kind(), s.res, s.accepted);
+            }
+            println!("finish -> {:?}; sink calls {}; image {} bytes", out.final_res, simio::stats(&io).calls, simio::image_of(&st).len());
+            let img = simio::image_of(&st);
+            println!("{}", img.iter().take(200).map(|b| format!("{b:02x}")).collect::<Vec<_>>().join(""));
+        }
         "gen" => {
             // print a generated case (debugging aid)
             let sc = scen::lookup(arg(&args, "--scenario").unwrap_or("")).expect("scenario");
